@@ -195,6 +195,7 @@ func c10Body(o c10Opts) func() {
 		} else if o.serverCloses {
 			ths = append(ths, vrt.GoProc("server-closer", 2, func() {
 				vrt.Point("wait-stream", func() bool { return sst != nil })
+				vrt.AnyMoment()
 				if err := sst.Close(); err != nil {
 					vrt.Failf("close-error", "server Close: %v", err)
 				}
